@@ -264,6 +264,49 @@ func scenSig(sc *scen.Scenario) string {
 
 func runtimeStack(b []byte) int { return runtime.Stack(b, true) }
 
+// runOrDeadlock runs fn (a small free-running scenario: a few batches, no harness gates) on a goroutine of its own. If
+// fn has not returned after a while and three looks in a row show every goroutine blocked with nothing asleep in a
+// timer, nothing can ever run again: deadlocked is that verdict (the goroutines are left behind). incon: fn neither
+// returned nor came to rest within two minutes.
+func runOrDeadlock(fn func()) (deadlocked bool, incon string) {
+	done := make(chan struct{})
+	go func() {
+		defer close(done)
+		fn()
+	}()
+	select {
+	case <-done:
+		return false, ""
+	case <-time.After(300 * time.Millisecond):
+	}
+	defer setGCOff()()
+	self := quiesce.Self()
+	var st quiesce.Stats
+	quiet := 0
+	for t0 := time.Now(); time.Since(t0) < 2*time.Minute; {
+		sn, ok := quiesce.Wait(self, 300*time.Millisecond, &st)
+		select {
+		case <-done:
+			return false, ""
+		default:
+		}
+		if ok && sn.Sleepers == 0 {
+			quiet++
+			if quiet >= 3 {
+				return true, ""
+			}
+		} else {
+			quiet = 0
+		}
+		select {
+		case <-done:
+			return false, ""
+		case <-time.After(100 * time.Millisecond):
+		}
+	}
+	return false, "a free-running scenario neither finished nor came to rest within two minutes"
+}
+
 // guarded runs fn on a goroutine of its own and waits for it. If fn has not returned after grace, the goroutine's
 // wait state is looked at twice, one second apart: parked on a lock (mutex / rwmutex / semaphore) both times means
 // it is waiting for something only another goroutine could release — and when everything fn touches is private to
